@@ -1,7 +1,7 @@
 (* C05, part 4: the run-level theorems, for every seeding function, parameters, maxdiff *)
 From Coq Require Import ZArith QArith List Bool Lia Sorting.Permutation Sorting.Sorted.
 Import ListNotations.
-Require Import Py PyProofs Pairing Core Multi Coordinator Peaks BestProofs1 BestProofs2 BestProofs3.
+Require Import Py PyProofs Pairing Core Multi Coordinator Peaks BestProofs1 BestProofs2 BestProofs3 RowEq FreshProofs.
 Open Scope Z_scope.
 
 Lemma mem_z_In x l : mem_z x l = true <-> In x l.
@@ -42,11 +42,12 @@ Proof. intros H. apply program_run_inv in H. destruct H as (o' & H & ->). cbn [o
   - destruct H as (joined & sep & Hr & ->). cbn [o_1 o_2]. exists sep. split; [reflexivity|]. split; [reflexivity|].
     set (f1 := filter_subsequent rows1) in *. set (f2 := filter_subsequent (map set_rest rows2)) in *.
     assert (K1 : kstrict qid f1) by apply fs_sorted. assert (K2 : kstrict qid f2) by apply fs_sorted.
-    destruct (resolve_two_lists f1 f2 maxdiff joined sep K1 K2 Hr) as (_ & used & HP).
     assert (R1 : forall w, In w f1 -> rest w = false).
     { intros w Hw. apply fs_first_best, first_best_In in Hw. apply (execute_rows _ _ _ _ _ _ _ E1 w Hw). }
     assert (R2 : forall w, In w f2 -> rest w = true).
     { intros w Hw. apply fs_first_best, first_best_In in Hw. apply (set_rest_rest _ _ Hw). }
+    rewrite (fresh_rows_rest f1 f2) in Hr by (apply Forall_forall; assumption).
+    destruct (resolve_two_lists f1 f2 maxdiff joined sep K1 K2 Hr) as (_ & used & HP).
     split; [|split].
     + pose proof (perm_filter (fun w => negb (rest w)) _ _ HP) as HF. rewrite !filter_app in HF.
       rewrite (filter_all _ f1), (filter_none _ f2), app_nil_r in HF.
@@ -104,26 +105,50 @@ Proof. intros H Hf Hn. destruct (first_pass_rows _ _ _ _ _ H Hf) as (rows1 & it1
 Qed.
 
 (* ---------- 'best' mode ---------- *)
+(* a second-pass row of the filtered first list is the query's row of the filtered second list (first-pass rows carry AlignedRest False) *)
+Lemma best_mode_rest_row qs it rows1 it1 rows2 x :
+  execute P seeds refs qs it = Ok (rows1, it1) ->
+  In x (filter_subsequent (rows1 ++ map set_rest rows2)) -> rest x = true -> In x (filter_subsequent (map set_rest rows2)).
+Proof. intros E1 Hx Hr. apply (fs_app_right rows1); [exact Hx|]. intros Hin.
+  destruct (execute_rows _ _ _ _ _ _ _ E1 x Hin) as (_ & Hf & _). congruence. Qed.
+
+(* the two parts of a joined record of `best` mode (after repair F12): x, the query's best row over both passes, is a FIRST-pass row;
+   y, the query's best second-pass row, is a different row *)
+Lemma best_parts qs it rows1 it1 rows2 x y :
+  execute P seeds refs qs it = Ok (rows1, it1) ->
+  let f1 := filter_subsequent (rows1 ++ map set_rest rows2) in
+  let f2 := filter_subsequent (map set_rest rows2) in
+  In x f1 -> In y (fresh_rows f1 f2) -> qid x = qid y ->
+  In y f2 /\ ~ In y f1 /\ x <> y /\ rest x = false /\ rest y = true.
+Proof. intros E1 f1 f2 Hx Hy Hq. apply fresh_rows_in in Hy. destruct Hy as (Hy & Hn).
+  assert (Ry : rest y = true) by (apply fs_first_best, first_best_In in Hy; apply (set_rest_rest _ _ Hy)).
+  assert (Rx : rest x = false).
+  { destruct (rest x) eqn:R; [|reflexivity]. exfalso. apply Hn.
+    pose proof (best_mode_rest_row qs it rows1 it1 rows2 x E1 Hx R) as Hx2.
+    rewrite <- (kstrict_same_key qid f2 x y (fs_sorted _) Hx2 Hy Hq). exact Hx. }
+  repeat split; try assumption. intros ->. congruence. Qed.
+
 Theorem best_mode_total maxdiff qs o : program_run P seeds Best maxdiff refs qs = Ok o ->
   exists rows1 it1 frags rows2 it2,
     execute P seeds refs qs 1 = Ok (rows1, it1) /\ all_fragments rows1 qs = Ok frags /\
     execute P seeds refs frags it1 = Ok (rows2, it2) /\
     kstrict qid (o_main o) /\
     (forall c, In c (map qid (o_main o)) <-> In c (map qid rows1) \/ In c (map qid rows2)) /\
-    (* every record is the best row of its query over both passes, or the join of that row with the query's best
-       second-pass row; x = y (the second-pass row IS the best row) is not excluded: the row is then joined with itself *)
+    (* every record is the best row of its query over both passes, or the join of that row x -- then a first-pass row -- with the
+       query's best second-pass row y, a different row (repair F12: a row is never joined with itself) *)
     let f1 := filter_subsequent (rows1 ++ map set_rest rows2) in
     let f2 := filter_subsequent (map set_rest rows2) in
     forall w, In w (o_main o) ->
-      In w f1 \/ exists x y, In x f1 /\ In y f2 /\ qid x = qid w /\ qid y = qid w /\ rid x = rid y /\
+      In w f1 \/ exists x y, In x f1 /\ In y f2 /\ x <> y /\ rest x = false /\ rest y = true /\
+                             qid x = qid w /\ qid y = qid w /\ rid x = rid y /\
                              check_overlap x y maxdiff = true /\ join_rows x y = Ok w /\ joined_ok w = true.
 Proof. intros H. apply program_run_inv in H. destruct H as (o' & H & ->). cbn [o_main].
   apply multi_execute_inv in H. destruct H as (rows1 & it1 & frags & rows2 & it2 & E1 & Ef & E2 & H). cbn zeta in H.
   destruct H as (joined & sep & Hr & ->). cbn [o_main].
   exists rows1, it1, frags, rows2, it2. split; [exact E1|]. split; [exact Ef|]. split; [exact E2|]. split; [apply fs_sorted|].
   set (f1 := filter_subsequent (rows1 ++ map set_rest rows2)) in *. set (f2 := filter_subsequent (map set_rest rows2)) in *.
-  assert (K1 : kstrict qid f1) by apply fs_sorted. assert (K2 : kstrict qid f2) by apply fs_sorted.
-  destruct (resolve_two_lists f1 f2 maxdiff joined sep K1 K2 Hr) as (HJ & _).
+  assert (K1 : kstrict qid f1) by apply fs_sorted. assert (K2 : kstrict qid (fresh_rows f1 f2)) by (apply kstrict_filter, fs_sorted).
+  destruct (resolve_two_lists f1 (fresh_rows f1 f2) maxdiff joined sep K1 K2 Hr) as (HJ & _).
   assert (Hids1 : forall c, In c (map qid f1) <-> In c (map qid rows1) \/ In c (map qid rows2)).
   { intros c. unfold f1. rewrite <- fs_ids, map_app, set_rest_qid, in_app_iff. reflexivity. }
   split.
@@ -138,47 +163,62 @@ Proof. intros H. apply program_run_inv in H. destruct H as (o' & H & ->). cbn [o
       * apply in_map. apply sort_by_in. apply in_or_app. right. apply filter_In. split; [exact Hx|]. rewrite Em. reflexivity.
   - intros w Hw. apply fs_first_best, first_best_In in Hw. apply sort_by_in in Hw. apply in_app_or in Hw. destruct Hw as [Hw|Hw].
     + right. destruct (HJ w Hw) as (x & y & Hx & Hy & Hq & Hrid & Hc & Hj & Hk). exists x, y.
-      pose proof (join_rows_qid _ _ _ Hj) as (Hqj & _). repeat split; try assumption; congruence.
+      pose proof (join_rows_qid _ _ _ Hj) as (Hqj & _).
+      destruct (best_parts qs 1 rows1 it1 rows2 x y E1 Hx Hy Hq) as (Hy2 & _ & Hne & Rx & Ry).
+      repeat split; try assumption; congruence.
     + left. apply filter_In in Hw. apply Hw.
+Qed.
+
+(* repair F12: when the best row x of a query over both passes is a second-pass row (AlignedRest = True) it is the query's row of the
+   second-pass list as well, but it is handed to resolve ONCE: x is the only row of its query resolve receives, the (reference, query)
+   group of x is [x], no joined row carries x's query id, and the record of that query in the main file is x itself *)
+Theorem best_mode_no_self_join maxdiff qs o : program_run P seeds Best maxdiff refs qs = Ok o ->
+  exists rows1 it1 frags rows2 it2,
+    execute P seeds refs qs 1 = Ok (rows1, it1) /\ all_fragments rows1 qs = Ok frags /\
+    execute P seeds refs frags it1 = Ok (rows2, it2) /\
+    let f1 := filter_subsequent (rows1 ++ map set_rest rows2) in
+    let f2 := filter_subsequent (map set_rest rows2) in
+    let handed := f1 ++ filter (fun w => negb (row_in w f1)) f2 in
+    forall x, In x f1 -> rest x = true ->
+      In x f2 /\
+      filter (fun w => qid w =? qid x) handed = [x] /\
+      (forall g, In g (resolve_groups_of handed) -> In x g -> g = [x]) /\
+      filter (fun w => qid w =? qid x) (o_main o) = [x].
+Proof. intros H. apply program_run_inv in H. destruct H as (o' & H & ->). cbn [o_main].
+  apply multi_execute_inv in H. destruct H as (rows1 & it1 & frags & rows2 & it2 & E1 & Ef & E2 & H). cbn zeta in H.
+  destruct H as (joined & sep & Hr & ->). cbn [o_main].
+  exists rows1, it1, frags, rows2, it2. split; [exact E1|]. split; [exact Ef|]. split; [exact E2|]. cbv zeta.
+  set (f1 := filter_subsequent (rows1 ++ map set_rest rows2)) in *. set (f2 := filter_subsequent (map set_rest rows2)) in *.
+  fold (fresh_rows f1 f2). intros x Hx Rx.
+  assert (K1 : kstrict qid f1) by apply fs_sorted. assert (K2 : kstrict qid f2) by apply fs_sorted.
+  assert (K2' : kstrict qid (fresh_rows f1 f2)) by (apply kstrict_filter, fs_sorted).
+  pose proof (best_mode_rest_row qs 1 rows1 it1 rows2 x E1 Hx Rx) as Hx2.
+  assert (Hnone : filter (fun w => qid w =? qid x) (fresh_rows f1 f2) = []).
+  { apply filter_none. intros y Hy. apply Z.eqb_neq. intros Hq. apply fresh_rows_in in Hy. destruct Hy as (Hy & Hn). apply Hn.
+    rewrite (kstrict_same_key qid f2 y x K2 Hy Hx2 Hq). exact Hx. }
+  assert (Hhand : filter (fun w => qid w =? qid x) (f1 ++ fresh_rows f1 f2) = [x]).
+  { rewrite filter_app, Hnone, app_nil_r. apply (kstrict_filter_single qid f1 x K1 Hx). }
+  split; [exact Hx2|]. split; [exact Hhand|]. split.
+  - intros g Hg Hxg. destruct (resolve_groups_of_filter _ _ Hg) as (r & c & ->).
+    apply filter_In in Hxg. destruct Hxg as (Hxg & Hc). apply filter_In in Hxg. destruct Hxg as (_ & Hrid). apply Z.eqb_eq in Hc. subst c.
+    rewrite filter_comm, Hhand. cbn [filter]. rewrite Hrid. reflexivity.
+  - destruct (resolve_two_lists f1 (fresh_rows f1 f2) maxdiff joined sep K1 K2' Hr) as (HJ & _).
+    assert (Hnj : filter (fun w => qid w =? qid x) joined = []).
+    { apply filter_none. intros j Hj. apply Z.eqb_neq. intros Hq.
+      destruct (HJ j Hj) as (x' & y & Hx' & Hy & Hqq & _ & _ & Hjn & _). pose proof (join_rows_qid _ _ _ Hjn) as (Hqj & _).
+      assert (In y (filter (fun w => qid w =? qid x) (fresh_rows f1 f2))) as Hin by (apply filter_In; split; [exact Hy | apply Z.eqb_eq; congruence]).
+      rewrite Hnone in Hin. destruct Hin. }
+    assert (Hm : mem_z (qid x) (map qid joined) = false).
+    { destruct (mem_z (qid x) (map qid joined)) eqn:Em; [|reflexivity]. apply mem_z_In in Em. apply in_map_iff in Em. destruct Em as (j & Ej & Hj).
+      assert (In j (filter (fun w => qid w =? qid x) joined)) as Hin by (apply filter_In; split; [exact Hj | apply Z.eqb_eq; exact Ej]).
+      rewrite Hnj in Hin. destruct Hin. }
+    apply fs_filter_single. rewrite sort_by_filter_p, filter_app, Hnj. cbn [app]. rewrite filter_comm, (kstrict_filter_single qid f1 x K1 Hx).
+    cbn [filter]. rewrite Hm. reflexivity.
 Qed.
 
 End Run.
 
 (* ---------- when does the self-join happen ---------- *)
-Lemma app_eq_app' {A} (l1 : list A) : forall l2 m1 m2, l1 ++ l2 = m1 ++ m2 ->
-  exists l, (l1 = m1 ++ l /\ m2 = l ++ l2) \/ (m1 = l1 ++ l /\ l2 = l ++ m2).
-Proof. induction l1 as [|a t IH]; intros l2 m1 m2 H.
-  - exists m1. right. split; [reflexivity | exact H].
-  - destruct m1 as [|b m1'].
-    + exists (a :: t). left. split; [reflexivity | symmetry; exact H].
-    + cbn in H. injection H as <- H. destruct (IH _ _ _ H) as (l & [(-> & ->)|(-> & ->)]); exists l; [left | right]; split; reflexivity.
-Qed.
-
-Lemma first_best_unique rows x x' : first_best rows x -> first_best rows x' -> qid x = qid x' -> x = x'.
-Proof. intros (l1 & l2 & -> & H1 & H2) (m1 & m2 & E & G1 & G2) Hq.
-  destruct (app_eq_app' _ _ _ _ E) as (l & [(-> & El)|(-> & El)]).
-  - destruct l as [|a l']; [cbn in El; injection El as -> _; reflexivity|]. cbn in El. injection El as <- ->. exfalso.
-    assert (A : conf x' < conf x) by (apply H1; [apply in_or_app; right; left; reflexivity | symmetry; exact Hq]).
-    assert (B : conf x <= conf x') by (apply G2; [apply in_or_app; right; left; reflexivity | exact Hq]). lia.
-  - destruct l as [|a l']; [cbn in El; injection El as -> _; reflexivity|]. cbn in El. injection El as <- ->. exfalso.
-    assert (A : conf x < conf x') by (apply G1; [apply in_or_app; right; left; reflexivity | exact Hq]).
-    assert (B : conf x' <= conf x) by (apply H2; [apply in_or_app; right; left; reflexivity | symmetry; exact Hq]). lia.
-Qed.
-
-Lemma first_best_fs rows x : first_best rows x -> In x (filter_subsequent rows).
-Proof. intros H. assert (Hc : In (qid x) (map qid (filter_subsequent rows))) by (apply (proj1 (fs_ids rows (qid x))), in_map, first_best_In; exact H).
-  apply in_map_iff in Hc. destruct Hc as (x' & Hq & Hx'). rewrite (first_best_unique rows x x' H (fs_first_best _ _ Hx') (eq_sym Hq)). exact Hx'. Qed.
-
-(* a row kept from a ++ b that does not occur in a is the row kept from b alone *)
-Lemma fs_app_right a b x : In x (filter_subsequent (a ++ b)) -> ~ In x a -> In x (filter_subsequent b).
-Proof. intros H Hn. apply first_best_fs. apply fs_first_best in H. destruct H as (l1 & l2 & E & H1 & H2).
-  destruct (app_eq_app' _ _ _ _ E) as (l & [(-> & El)|(-> & El)]).
-  - destruct l as [|y l'].
-    + cbn in El. exists [], l2. split; [symmetry; exact El|]. split; [intros y []|exact H2].
-    + cbn in El. injection El as <- _. exfalso. apply Hn. apply in_or_app. right. left. reflexivity.
-  - exists l, l2. split; [exact El|]. split; [|exact H2]. intros y Hy. apply H1. apply in_or_app. right. exact Hy.
-Qed.
-
 Section Run2.
 Variable P : params.
 Variable seeds : seeding.
@@ -188,6 +228,33 @@ Variable refs : list omap.
 Theorem best_mode_self_join qs it rows1 it1 rows2 x :
   execute P seeds refs qs it = Ok (rows1, it1) ->
   In x (filter_subsequent (rows1 ++ map set_rest rows2)) -> rest x = true -> In x (filter_subsequent (map set_rest rows2)).
-Proof. intros E1 Hx Hr. apply (fs_app_right rows1); [exact Hx|]. intros Hin.
-  destruct (execute_rows _ _ _ _ _ _ _ E1 x Hin) as (_ & Hf & _). congruence. Qed.
+Proof. exact (best_mode_rest_row P seeds refs qs it rows1 it1 rows2 x). Qed.
+
+(* regression statement about the model BEFORE repair F12 (BestProofs3.program_run_before_F12): such a row x was handed to resolve
+   twice, its query contributed the rows [x; x] and its (reference, query) group was [x; x] *)
+Theorem best_mode_self_join_before_F12 maxdiff qs o : program_run_before_F12 P seeds Best maxdiff refs qs = Ok o ->
+  exists rows1 it1 frags rows2 it2 joined sep,
+    execute P seeds refs qs 1 = Ok (rows1, it1) /\ all_fragments rows1 qs = Ok frags /\
+    execute P seeds refs frags it1 = Ok (rows2, it2) /\
+    let f1 := filter_subsequent (rows1 ++ map set_rest rows2) in
+    let f2 := filter_subsequent (map set_rest rows2) in
+    results_resolve (f1 ++ f2) maxdiff = Ok (joined, sep) /\
+    o = mkOut (filter_subsequent (sort_by qid (joined ++ filter (fun w => negb (mem_z (qid w) (map qid joined))) f1))) None None /\
+    forall x, In x f1 -> rest x = true ->
+      In x f2 /\ filter (fun w => qid w =? qid x) (f1 ++ f2) = [x; x] /\ In [x; x] (resolve_groups_of (f1 ++ f2)).
+Proof. intros H. destruct (best_before_F12_inv _ _ _ _ _ _ H) as (rows1 & it1 & frags & rows2 & it2 & joined & sep & E1 & Ef & E2 & Hr & Ho).
+  exists rows1, it1, frags, rows2, it2, joined, sep. split; [exact E1|]. split; [exact Ef|]. split; [exact E2|]. cbv zeta.
+  split; [exact Hr|]. split; [exact Ho|].
+  set (f1 := filter_subsequent (rows1 ++ map set_rest rows2)) in *. set (f2 := filter_subsequent (map set_rest rows2)) in *.
+  intros x Hx Rx. pose proof (best_mode_self_join qs 1 rows1 it1 rows2 x E1 Hx Rx) as Hx2.
+  assert (Hh : filter (fun w => qid w =? qid x) (f1 ++ f2) = [x; x]).
+  { rewrite filter_app, (kstrict_filter_single qid f1 x (fs_sorted _) Hx), (kstrict_filter_single qid f2 x (fs_sorted _) Hx2). reflexivity. }
+  split; [exact Hx2|]. split; [exact Hh|].
+  (* the group of x *)
+  assert (Hc : In x (concat (resolve_groups_of (f1 ++ f2)))).
+  { apply (Permutation_in _ (Permutation_sym (resolve_groups_of_perm (f1 ++ f2)))). apply in_or_app. left. exact Hx. }
+  apply in_concat in Hc. destruct Hc as (g & Hg & Hxg). destruct (resolve_groups_of_filter _ _ Hg) as (r & c & Eg).
+  assert (g = [x; x]) as <-; [|exact Hg]. rewrite Eg in Hxg |- *.
+  apply filter_In in Hxg. destruct Hxg as (Hxg & Hcq). apply filter_In in Hxg. destruct Hxg as (_ & Hrid). apply Z.eqb_eq in Hcq. subst c.
+  rewrite filter_comm, Hh. cbn [filter]. rewrite Hrid. reflexivity. Qed.
 End Run2.
